@@ -125,7 +125,7 @@ func (t *RecTransport) AddFault(f Fault) {
 func (t *RecTransport) faultFor(kind string) error {
 	t.counts[kind]++
 	for _, f := range t.faults {
-		if f.Kind == kind && f.K == t.counts[kind] {
+		if f.Kind == kind && (f.K == t.counts[kind] || f.K == 0) { // K == 0: every call from now on
 			return f.Err
 		}
 	}
